@@ -118,20 +118,33 @@ namespace TAO_PEGTL_NAMESPACE::parse_tree
          m_end = TAO_PEGTL_NAMESPACE::internal::inputerator();
       }
 
+      // with lazy tracking the input's inputerator is a plain pointer, the counters have to be calculated
+      template< typename ParseInput >
+      [[nodiscard]] static TAO_PEGTL_NAMESPACE::internal::inputerator inputerator_of( const ParseInput& in )
+      {
+         if constexpr( std::is_same_v< typename ParseInput::inputerator_t, TAO_PEGTL_NAMESPACE::internal::inputerator > ) {
+            return in.inputerator();
+         }
+         else {
+            const auto p = in.position();
+            return TAO_PEGTL_NAMESPACE::internal::inputerator( in.current(), p.byte, p.line, p.column );
+         }
+      }
+
       // all non-root nodes are initialized by calling this method
       template< typename Rule, typename ParseInput, typename... States >
       void start( const ParseInput& in, States&&... /*unused*/ )
       {
          set_type< Rule >();
          source = in.source();
-         m_begin = TAO_PEGTL_NAMESPACE::internal::inputerator( in.inputerator() );
+         m_begin = inputerator_of( in );
       }
 
       // if parsing of the rule succeeded, this method is called
       template< typename Rule, typename ParseInput, typename... States >
-      void success( const ParseInput& in, States&&... /*unused*/ ) noexcept
+      void success( const ParseInput& in, States&&... /*unused*/ )
       {
-         m_end = TAO_PEGTL_NAMESPACE::internal::inputerator( in.inputerator() );
+         m_end = inputerator_of( in );
       }
 
       // if parsing of the rule failed, this method is called
